@@ -201,6 +201,8 @@ func checkC02(c *Ctx, r *Report, tier string) {
 	restoreResetsBeforeSuccess(c, r, "C02.R3")
 	c02R5(c, r, x)
 	publishedVertexWrites(c, r, "C02.R5")
+	batchItemsProcessedOneByOne(c, r, "C02.R5")
+	restoreCallbackDelegates(c, r, "C02.R3", "partition", "Hnsw")
 }
 
 // shardMapWrites lists MapUpdate/delete on shard maps in f.
